@@ -25,7 +25,7 @@ PROPERTY = 'C16'
 LEVEL = 'exploration'
 EXHAUSTIVE = True
 
-RULE = ('12 base workflows (direct: one component consuming a data file inside its arguments plus a :copy file; one: '
+RULE = ('13 base workflows (dirchain: P -> Q consuming the directory of P -> C consuming the directory of Q; direct: one component consuming a data file inside its arguments plus a :copy file; one: '
         'consumer of a file of one producer; chain: producer -> producer -> consumer; two: consumer of two producers '
         'named A-B and B; dir / dircopy: consumer of the working directory of a producer inside / outside its '
         'arguments; k8s: direct with a container image; ext: direct with an absolute path outside the instance; bin / '
@@ -47,7 +47,9 @@ RULE = ('12 base workflows (direct: one component consuming a data file inside i
         'stage), 5 resource requests, instance directory (2 depths, package name, instance name, no timestamp, '
         'reloaded from the instance, moved then reloaded, executables checked/resolved or not), file times (2001/2033), unrelated component / data file, '
         'same content under another name / under input / at another absolute path, value spelled through a '
-        'variable; missing: every consumed file and every upstream file removed) + the ambiguity alphabet '
+        'variable; missing: every consumed file and every upstream file removed, also upstream of working-directory '
+        'references (dir, dirchain): the consumer must then have no hash; history: each of those files missing when '
+        'the hashes are first read and present afterwards - the hashes read then must be those of the complete world) + the ambiguity alphabet '
         '(executable x arguments over concatenations of {a, executable}; ("ab","c")/("a","bc"); executable x file list '
         'with executables that contain "files<md5>:method"; image x arguments with "commandarguments" inside). '
         'thorough adds every pair of variations of two different aspect families per base and a larger ambiguity '
@@ -64,6 +66,12 @@ RULE = ('12 base workflows (direct: one component consuming a data file inside i
         'and not judged.')
 
 ASSUMPTIONS = [
+    'a reference to the working directory of a producer stands for what the producer does; while an input of that '
+    'producer is missing the producer cannot be identified, so the missing file is (transitively) an input the consumer '
+    'depends on and the consumer must have no hash (the code says the same: "Producer %s does not have a %s hash"); '
+    'not enumerated for dircopy (accepted known finding: that reference leaves no trace at all)',
+    'after a missing input has appeared the hashes are read from the same ComponentSpecification objects without the '
+    'harness calling memoization_reset(): a hash that identifies the work cannot stay the one computed while the input was missing',
     '`<producer>:output` (no file) refers to what the producer printed: out.stdout, and for a repeating producer the '
     'archived output of its most recent repetition = streams/<index>.stdout with the highest NUMERIC index (docstring of '
     'ComponentSpecification.path_to_stdout); such worlds are validated after the outputs were written, because on HEAD '
@@ -95,7 +103,7 @@ ASSUMPTIONS = [
 ]
 
 IRRELEVANT_GROUPS = {'name', 'pname', 'stage', 'stagename', 'spelling', 'order', 'unused', 'resources', 'location', 'time',
-                     'neighbours', 'filename', 'indirection', 'checkexe', 'history', 'oldstream'}
+                     'neighbours', 'filename', 'indirection', 'checkexe', 'history', 'oldstream', 'appeared'}
 RELEVANT_GROUPS = {'exe', 'args', 'content', 'bigcontent', 'method', 'usedvar', 'refs', 'latest'}
 NO_SECOND_LEVEL = {'bigcontent', 'latest', 'oldstream'}     # only varied alone (cost)
 
